@@ -1,6 +1,7 @@
 import AkVerif.Model.Proto
 import AkVerif.Model.Sgr
 import AkVerif.Model.SgrText
+import AkVerif.Model.SgrResize
 import AkVerif.Gen.C09
 open Ak Ak.Proto Sgr SgrText
 
@@ -10,6 +11,8 @@ def fin : Char := Gen.C09.stripFinal
 
 /-- `12`, `-3` (an `int`) or `2.5`, `-0.25`, `7.0` (a `float`: digits with one `.`) -/
 def parseNum (s0 : String) : Option Num :=
+  -- a member that is not a number: `N` None, `a` the str "a", `d` the str "1", `u` the tuple (1,), `o` an object()
+  if s0 = "N" || s0 = "a" || s0 = "d" || s0 = "u" || s0 = "o" then some .other else
   -- `e3` an IntEnum member, `s3` an instance of an int subclass, `b1` a bool: ints with that value
   let s := if s0.startsWith "e" || s0.startsWith "s" || s0.startsWith "b" then (s0.drop 1).toString else s0
   match s.splitOn "." with
@@ -24,21 +27,23 @@ def parseNum (s0 : String) : Option Num :=
 def parseNumList (s : String) : Option (List Num) :=
   if s = "-" then some [] else (s.splitOn ",").mapM parseNum
 
-/-- `N` | `s:<cps>` | `i:<int>` | `f:<decimal>` | `t:<numbers>` | `o`; the *kinds* `ie:` (IntEnum
+/-- `N` | `s:<cps>` | `i:<int>` | `f:<decimal>` | `t:<members>` | `l:<members>` (a list) | `o…` (another object); the *kinds* `ie:` (IntEnum
 member), `is:` (instance of an int subclass), `tn:` (namedtuple), `ts:` (instance of a tuple
 subclass) are ints / tuples to the code (`isinstance`), so they are `.int` / `.tuple` here -/
 def parseColor (t : String) : Option ColorSpec :=
   if t = "N" then some .none
-  else if t = "o" then some .other
+  else if t.startsWith "o" then some .other     -- `o` bytes, `od` / `od1` dict, `os` set, `of` frozenset, `oo` object(), `oc` complex
+  else if t.startsWith "l:" then (parseNumList (t.drop 2).toString).map (.tuple .list)
+  else if t.startsWith "lsub:" then (parseNumList (t.drop 5).toString).map (.tuple .list)
   else if t.startsWith "s:" then (parseCps (t.drop 2).toString).map .str
   else if t.startsWith "i:" then (parseInt (t.drop 2).toString).map .int
   else if t.startsWith "ie:" || t.startsWith "is:" || t.startsWith "ib:" then (parseInt (t.drop 3).toString).map .int
-  else if t.startsWith "tn:" || t.startsWith "ts:" then (parseNumList (t.drop 3).toString).map .tuple
+  else if t.startsWith "tn:" || t.startsWith "ts:" then (parseNumList (t.drop 3).toString).map (.tuple .tuple)
   else if t.startsWith "f:" then
     match parseNum (t.drop 2).toString with
     | some (.flt n d) => some (.float n d)
     | _ => none
-  else if t.startsWith "t:" then (parseNumList (t.drop 2).toString).map .tuple
+  else if t.startsWith "t:" then (parseNumList (t.drop 2).toString).map (.tuple .tuple)
   else none
 
 /-- a flag value: N None, F False, T True, 0 1 2 ints, e "", x "x", l [], L [0], z 0.0, h 1.5 -/
@@ -294,6 +299,23 @@ def withSpecs (k : String) (rest : List String) (f : Palette → String) : Strin
       | .error e => "err " ++ e.name
       | .ok pal => f pal
 
+/-! chunk lists through a list helper: `lst <src> <helper> <sink> <n> parts… @ <value>`
+(`src`: `fmts` | `obj`; `helper`: `id` | `rs:<len>,<len>…` = `CHText.resize_chunks_list` once per
+length; `sink`: `make` | `ctor` | `ctorl` | `join`) -/
+def parseSource (s : String) : Option Source :=
+  if s = "fmts" then some .fmts else if s = "obj" then some .obj else none
+
+def parseHelper (s : String) : Option (List Nat) :=
+  if s = "id" then some []
+  else if s.startsWith "rs:" then ((s.drop 3).toString.splitOn ",").mapM String.toNat?
+  else none
+
+def parseSink (s : String) : Option Sink :=
+  if s = "make" then some .make
+  else if s = "ctor" || s = "ctorl" then some .ctor
+  else if s = "join" then some .join
+  else none
+
 def handle (line : String) : String :=
   match splitWs line with
   | ["fmt", fg, bg, eff, nc, text] =>
@@ -334,6 +356,24 @@ def handle (line : String) : String :=
       | some parts => showExcept (fun cs => showCps (render (mergeChunks cs))) (mkChunks cfg parts)
       | none => "bad-op"
     | none => "bad-op"
+  | "lst" :: src :: helper :: sink :: n :: rest0 =>   -- judged path: the value the real route reports, as data
+    let (rest, data) := splitData rest0
+    match parseSource src, parseHelper helper, parseSink sink, n.toNat? with
+    | some _, some _, some _, some k =>
+      match parseParts k rest with
+      | some parts =>
+        match mkChunks cfg parts with
+        | .error e => "err " ++ e.name
+        | .ok cs => showData (cs.map fun c => (c.pre, c.suf)) data
+      | none => "bad-op"
+    | _, _, _, _ => "bad-op"
+  | "lstm" :: src :: helper :: sink :: n :: rest =>   -- diagnostic: the model runs helper and sink itself (`C09.resize_shows`)
+    match parseSource src, parseHelper helper, parseSink sink, n.toNat? with
+    | some sr, some lens, some sk, some k =>
+      match parseParts k rest with
+      | some parts => showExcept (fun cs => showCps (listStr sr lens sk cs)) (mkChunks cfg parts)
+      | none => "bad-op"
+    | _, _, _, _ => "bad-op"
   | ["route", fg, bg, eff, nc, rt, text, "@", l, r] =>
     -- a route from `fmt(text)` to a str; `l` / `r` = what the real route wrote around the text (data)
     match parseSpec fg bg eff nc, parseCps text with
